@@ -165,15 +165,21 @@ def model_check(chk, tier):
     chk.extra["transcription_model_checked"] = info
 
 
+def model_level(chk, tier):
+    model_check(chk, tier)
+    lemma = core.run_tlc("MemRunLemma.tla", "MemRunLemma.cfg" if tier == "quick" else "MemRunLemma_t.cfg", workers=4,
+                         timeout=3000, xmx="6g")
+    core.tlc_must_pass(lemma, "MemRunLemma")
+    chk.add_tlc(lemma)
+    chk.extra["run_judge_equivalence_lemma"] = {"cases": lemma.distinct, "wall_s": round(lemma.wall, 1),
+                                                "what": "CellJudge = RunJudge for every run list (<= 3 runs) and every memmove/memset call on a scaled arena"}
+
+
 def run(tier):
     chk = core.Check("C08", tier, "exploration")
-    model_check(chk, tier)
-    lemma = core.run_tlc("MemRunLemma.tla", "MemRunLemma.cfg", workers=8, timeout=3000, xmx="4g") \
-        if os.path.exists(os.path.join(core.SPECS, "MemRunLemma.tla")) else None
-    if lemma is not None:
-        core.tlc_must_pass(lemma, "MemRunLemma")
-        chk.add_tlc(lemma)
-        chk.extra["run_judge_equivalence_lemma"] = {"states": lemma.distinct, "wall_s": round(lemma.wall, 1)}
+    # the model-level work (transcription vs definition, run-judgement lemma) runs next to the probe work
+    bg = concurrent.futures.ThreadPoolExecutor(max_workers=1)
+    model_future = bg.submit(model_level, chk, tier)
 
     builds = {}
     for rel in (False, True):
@@ -197,7 +203,7 @@ def run(tier):
                       expected_counts(rest, {"cmp", "bcmp"}, False)))
         plans.append(("large", "large %d 400 1048576" % chk.seed, None))
 
-    nontrivial = 0
+    nontrivial = set()
     per_fn = {}
     for build, binary in builds.items():
         for tag, cmd, expect in plans:
@@ -225,9 +231,10 @@ def run(tier):
             for r in calls:
                 per_fn[r["f"]] = per_fn.get(r["f"], 0) + 1
                 if r["f"] in ("memcmp", "bcmp"):
-                    nontrivial += 1 if r["p"] < r["n"] else 0
-                else:
-                    nontrivial += 1 if r["n"] >= THRESHOLD else 0
+                    if r["p"] < r["n"]:
+                        nontrivial.add((r["f"], r["n"], r["am"], r["bm"], r["p"], r["pr"]))
+                elif r["n"] >= THRESHOLD:
+                    nontrivial.add((r["f"], r["n"], r["d"], r.get("s", r.get("c"))))
             for i in sorted(bad):
                 r = calls[i]
                 sig, what = describe(r)
@@ -235,14 +242,16 @@ def run(tier):
                             {"build": build, "record": r, "replay_cmd": replay_cmd(r)})
             if calls and len(chk.samples) < 6:
                 chk.sample({"build": build, "plan": tag, "line": json.dumps(calls[len(calls) // 2])[:400]})
-    chk.nontrivial = nontrivial
+    model_future.result()
+    bg.shutdown()
+    chk.nontrivial = len(nontrivial)
     chk.exhaustive = False
     chk.rule = ("the probe calls the real exported symbols for n in %s, destination and source misalignment 0..15 (both orders of the "
                 "buffers), memmove additionally with every overlap distance -(n+1)..n+1 for every destination misalignment, memset with 9 int "
                 "fill values (incl. values needing conversion to unsigned char), memcmp/bcmp with the first difference at every position, six "
                 "value pairs (both signs, across the sign bit, 0/255), reversed relation after it, %s alignments; plus random lengths up to %s "
-                "(run-level judgement). Every line judged by TLC. non-trivial = copy/set calls with n >= 16 (word-wise path) and compare calls "
-                "with a difference" % (
+                "(run-level judgement). Every line judged by TLC. non-trivial = distinct copy/set calls with n >= 16 (word-wise path) and distinct compare calls "
+                "with a difference (the same call in the other build is not counted again)" % (
                     "the boundary set %s" % BOUNDARY if quick else "0..40", "16" if quick else "256 (boundary n) / 16",
                     "64 KiB" if quick else "1 MiB"))
     chk.assumptions = ["x86_64 only; WORD_SIZE 8, WORD_COPY_THRESHOLD 16 (lengths 0..40 = 2*threshold + word cover every head/body/tail split)",
@@ -252,6 +261,7 @@ def run(tier):
     chk.extra["calls_per_function"] = per_fn
     chk.extra["builds"] = sorted(builds)
     chk.extra["tlc_states_total"] = chk.states
+    chk.extra["tlc_judged_lines"] = chk.traces
     return chk.finish()
 
 
